@@ -35,7 +35,7 @@ func init() {
 	alphabet[len(alphabet)-1].val = home.MyDir
 	vlib.Register(&vlib.Check{
 		ID: "C09", Engine: "E2",
-		Rule: "every sequence of up to 3 (quick) / 4 (thorough) items over {a space ' \" \\ ( ) [ # ; | LF é $ ~ { TAB CR, the expansion $(x) of an injected variable holding q'\") \\$z;~ , the expansion ~ of the home directory} plus every sequence of 4 (quick) / 5 (thorough) items over the first 16 of these is encoded by each encoder that can represent it: sq '…' (no ', no expansion), dq-min \"…\" (only \\ \" $ ~ backslash-escaped), dq-esc (also \\s \\t \\r \\n), dq-all (every punctuation character backslash-escaped), bq %(…) (balanced parentheses, no literal $ or ~); each literal is evaluated as `vargsrec LIT`, `vargsrec LIT z` (argv recorded by a Go builtin) and `v = LIT` (variable read through the Go API) and must give exactly the original string; non-trivial = the value contains at least one item other than a/é",
+		Rule: "every sequence of up to 3 (quick) / 4 (thorough) items over {a space ' \" \\ ( ) [ # ; | LF é $ ~ { TAB CR, the expansion $(x) of an injected variable holding q'\") \\$z;~ , the expansion ~ of the home directory} plus every sequence of 4 (quick) / 5 (thorough) items over the first 16 of these is encoded by each encoder that can represent it: sq '…' (no ', no expansion), dq-min \"…\" (only \\ \" $ ~ backslash-escaped), dq-esc (also \\s \\t \\r \\n), dq-all (every punctuation character backslash-escaped), dq-raw (white space written as backslash + the literal space/TAB/CR/LF), bq %(…) (balanced parentheses, no literal $ or ~); each literal is evaluated as `vargsrec LIT`, `vargsrec LIT z` (argv recorded by a Go builtin) and `v = LIT` (variable read through the Go API) and must give exactly the original string; non-trivial = the value contains at least one item other than a/é",
 		Run:    run,
 		Replay: replay,
 		Assumptions: []string{
@@ -54,10 +54,10 @@ type encoded struct {
 	src string
 }
 
-var dqLevel = map[string]int{"dq-min": 0, "dq-esc": 1, "dq-all": 2}
+var dqLevel = map[string]int{"dq-min": 0, "dq-esc": 1, "dq-all": 2, "dq-raw": 3}
 var esc = map[string]string{" ": "\\s", "\t": "\\t", "\r": "\\r", "\n": "\\n"}
 
-var encoders = []string{"sq", "dq-min", "dq-esc", "dq-all", "bq"}
+var encoders = []string{"sq", "dq-min", "dq-esc", "dq-all", "dq-raw", "bq"}
 
 // tildeOK: a `~` expansion must not be followed by something that could continue a user name.
 func tildeOK(seq []item) bool {
@@ -139,9 +139,13 @@ func encode(seq []item, enc string) (string, bool) {
 		case c == "\\" || c == "\"" || c == "$" || c == "~":
 			s.WriteString("\\" + c)
 		case esc[c] != "":
-			if level >= 1 {
+			switch {
+			case level == 3:
+				// dq-raw: the documented `\<char>` escape applied to the white-space character itself
+				s.WriteString("\\" + c)
+			case level >= 1:
 				s.WriteString(esc[c])
-			} else {
+			default:
 				s.WriteString(c)
 			}
 		case c == "a" || c == "é":
